@@ -11,7 +11,10 @@ use tokio::select;
 use tracing::{info, warn};
 
 use super::manifest::*;
-use super::{DeleteVector, DiskRowset, MANIFEST_FILE_NAME, StorageOptions, StorageResult};
+use super::{
+    DeleteVector, DiskRowset, MANIFEST_FILE_NAME, StorageOptions, StorageResult,
+    TracedStorageError,
+};
 
 /// The operations sent to the version manager. Compared with manifest entries, operations
 /// like `AddRowSet` needs to be associated with a `DiskRowSet` struct.
@@ -247,6 +250,32 @@ impl VersionManager {
                 .get(&current_epoch)
                 .map(|x| x.as_ref().clone())
                 .unwrap_or_default();
+
+            // A delete vector must refer to a RowSet of the latest version. If the RowSet has
+            // been compacted away since the deleting transaction took its snapshot, the
+            // deletion would silently have no effect: refuse the commit instead.
+            let added_rowsets: HashSet<(u32, u32)> = ops
+                .iter()
+                .filter_map(|op| match op {
+                    EpochOp::AddRowSet((entry, _)) => {
+                        Some((entry.table_id.table_id, entry.rowset_id))
+                    }
+                    _ => None,
+                })
+                .collect();
+            for op in &ops {
+                if let EpochOp::AddDV((entry, _)) = op
+                    && !added_rowsets.contains(&(entry.table_id.table_id, entry.rowset_id))
+                    && !snapshot
+                        .get_rowsets_of(entry.table_id.table_id)
+                        .is_some_and(|rowsets| rowsets.contains(&entry.rowset_id))
+                {
+                    return Err(TracedStorageError::not_found(
+                        "rowset (concurrently compacted or dropped, please retry)",
+                        entry.rowset_id,
+                    ));
+                }
+            }
 
             // Store entries to be committed into the manifest
             entries = Vec::with_capacity(ops.len());
